@@ -1,6 +1,6 @@
 """C16 -- type-context lookups see through aliases and references (DESIGN 7/C16).
 
-prove      : key tables of the live inspection.unwrap / refs.forwardref on the key family -> GenCtxTables.v,
+prove      : key tables of the live inspection.unwrap / refs.forwardref / refs.evaluate on the key family -> GenCtxTables.v,
              then coq/dyn/C16/C16.v (refinement theorem for every key family + its instance for the live one).
 correspond : the Gallina model of ctx.TypeContext (Model/Ctx.v) against a real TypeContext on
              (a) prefix trees of ALL operation sequences up to a depth over small sub-families,
@@ -22,9 +22,12 @@ from lib import coq_bool, coq_list, coq_nat
 
 COQ_TARGETS = ["theories/Proofs/CtxLemmas.vo", "theories/Model/CtxEq.vo", "theories/Props/C16Bridge.vo"]
 # notes/bridge.md, "Context bridge": the mechanism model's TypeContext (Model/Build.v: getitem) is what this model says
-BRIDGE_THEOREMS = ["C16B_key_laws", "C16B_getitem_is_spec_lookup", "C16B_item", "C16B_get", "C16B_getitem_iff",
-                   "C16B_routes_any_history", "C16B_stale_memo"]
+BRIDGE_THEOREMS = ["C16B_key_laws", "C16B_getitem_is_spec_lookup", "C16B_scan_adds_nothing", "C16B_item", "C16B_get",
+                   "C16B_getitem_iff", "C16B_routes_any_history", "C16B_stale_memo", "C16B_second_spelling"]
 MOD = "verif_c16_fam"
+IMP = "verif_c16_imp"      # a module that merely IMPORTS the family's names (and rebinds each class as RB<i>)
+IMP2 = "verif_c16_imp2"    # a second importer (of the classes only)
+NOWHERE = "verif_c16_nowhere"   # never imported
 NBASE = 3
 CORE_FORMS = ["B", "NT", "TA", "SA", "FI", "CV", "FR"]          # the family of the quantifier (+ ClassVar)
 EXT_FORMS = ["FRNT", "FRTA", "FRSA"]                             # forward references naming the wrappers
@@ -33,13 +36,31 @@ EXT_FORMS = ["FRNT", "FRTA", "FRSA"]                             # forward refer
 #   NTAN = NewType of (alias of NT); and the references naming the named ones
 DEEP_FORMS = ["FIN", "CVN", "FIT", "TAN", "NTA", "NTAN"]
 DEEP_REFS = ["FRTAN", "FRNTA", "FRNTAN"]
-FORMS = CORE_FORMS + EXT_FORMS + DEEP_FORMS + DEEP_REFS
+# references written in a module that is not the defining one (ctx.py repair 09bcecf: __missing__ accepts ANY stored
+# reference that evaluates to the requested type):  XR = ForwardRef('B', module=IMP), YR = ForwardRef('B', module=IMP2),
+# ZR = ForwardRef('RB', module=IMP) (another NAME bound to the class), XRNT / XRSA = the NewType / the string alias
+# through the importer, FRFI = ForwardRef('FI', module=MOD): names Final[B] although forwardref(Final[B]) does not
+FOREIGN_REFS = ["XR", "YR", "ZR", "XRNT", "XRSA", "FRFI"]
+# references that cannot be evaluated: missing name (NameError), module never imported (NameError in an empty
+# namespace), missing attribute (AttributeError).  They name nothing and must not raise out of the scan.
+NAMELESS_REFS = ["UR", "UM", "UA"]
+FORMS = CORE_FORMS + EXT_FORMS + DEEP_FORMS + DEEP_REFS + FOREIGN_REFS + NAMELESS_REFS
 NAMING = {"B": "FR", "NT": "FRNT", "TA": "FRTA", "SA": "FRSA", "TAN": "FRTAN", "NTA": "FRNTA", "NTAN": "FRNTAN"}
+# form of a reference -> (text of the reference, module it is written in, form of the key it names or None)
+REF_FORMS = {"FR": ("B{i}", MOD, "B"), "FRNT": ("NT{i}", MOD, "NT"), "FRTA": ("TA{i}", MOD, "TA"),
+             "FRSA": ("SA{i}", MOD, "SA"), "FRTAN": ("TAN{i}", MOD, "TAN"), "FRNTA": ("NTA{i}", MOD, "NTA"),
+             "FRNTAN": ("NTAN{i}", MOD, "NTAN"),
+             "XR": ("B{i}", IMP, "B"), "YR": ("B{i}", IMP2, "B"), "ZR": ("RB{i}", IMP, "B"),
+             "XRNT": ("NT{i}", IMP, "NT"), "XRSA": ("SA{i}", IMP, "SA"), "FRFI": ("FI{i}", MOD, "FI"),
+             "UR": ("Gone{i}", MOD, None), "UM": ("B{i}", NOWHERE, None), "UA": ("B{i}.nope", MOD, None)}
 DEFAULT = 7          # the default handed to get(); inserted values start at 10
 NONE_VAL = 0         # get() without default returns None: encoded as value 0
 THEOREMS = ["C16_refines", "C16_keyerror", "C16_stored_found", "C16_lookup_pure",
+            "C16_found_iff_named", "C16_which_reference", "C16_first_stored_wins",
             "C16_live_tabs_ok", "C16_instance", "C16_refines_live",
-            "C16_unwrap_reaches_base", "C16_wrapper_finds_base"]
+            "C16_unwrap_reaches_base", "C16_wrapper_finds_base",
+            "C16_canonical_ref_names_live", "C16_foreign_refs_live", "C16_foreign_ref_finds_type",
+            "C16_nameless_refs_live"]
 
 
 # ----------------------------------------------------------------------------------
@@ -64,28 +85,49 @@ def family_source() -> str:
     return src
 
 
+def importer_sources():
+    """two modules that merely import the names (the second only the classes); IMP also rebinds each class"""
+    names = [f"{f}{i}" for i in range(NBASE) for f in ("B", "NT", "TA", "SA", "FI")]
+    imp = f"from {MOD} import {', '.join(names)}\n" + "".join(f"RB{i} = B{i}\n" for i in range(NBASE))
+    imp2 = f"from {MOD} import {', '.join(f'B{i}' for i in range(NBASE))}\n"
+    return imp, imp2
+
+
+def copy_ref(r):
+    """a fresh, unevaluated ForwardRef equal to r (refs.evaluate caches its result ON the reference object)"""
+    return typing.ForwardRef(r.__forward_arg__, is_argument=r.__forward_is_argument__,
+                             module=r.__forward_module__, is_class=r.__forward_is_class__)
+
+
 class Family:
     """names -> key objects, and BY CONSTRUCTION (not via typelib) what each key's unwrapped form and
     naming forward reference are: this is what the oracle uses."""
 
     def __init__(self):
         m = impl.new_module(MOD, family_source())
+        imp, imp2 = importer_sources()
+        self.importers = [impl.new_module(IMP, imp), impl.new_module(IMP2, imp2)]
+        impl.drop_module(NOWHERE)
         self.module = m
         self.names: list[str] = []
         self.obj: dict[str, object] = {}
         self.unwrapped: dict[str, str | None] = {}
-        self.naming_ref: dict[str, str | None] = {}
+        self.naming_ref: dict[str, str | None] = {}      # the reference refs.forwardref builds (defining module)
+        self.named_by: dict[str, list[str]] = {}         # every reference of the family that names the key
         self.is_ref: dict[str, bool] = {}
         for i in range(NBASE):
             for f in FORMS:
                 n = f"{f}{i}"
                 self.names.append(n)
-                if f.startswith("FR"):
-                    target = "B" if f == "FR" else f[2:]
-                    self.obj[n] = typing.ForwardRef(f"{target}{i}", module=MOD, is_class=True)
+                self.named_by.setdefault(n, [])
+                if f in REF_FORMS:
+                    text, mod, target = REF_FORMS[f]
+                    self.obj[n] = typing.ForwardRef(text.format(i=i), module=mod, is_class=True)
                     self.is_ref[n] = True
                     self.unwrapped[n] = None
                     self.naming_ref[n] = None
+                    if target is not None:
+                        self.named_by.setdefault(f"{target}{i}", []).append(n)
                 else:
                     self.obj[n] = getattr(m, n)
                     self.is_ref[n] = False
@@ -94,9 +136,27 @@ class Family:
                     # whatever the nesting, the unwrapped form of a wrapper of a plain class is that class
                     self.naming_ref[n] = f"{NAMING[f]}{i}" if f in NAMING else None
         self.core = [n for n in self.names if n.rstrip("0123456789") in CORE_FORMS]
+        # references of the family that are not the canonical one of the key they name
+        self.foreign = [(r, k) for k in self.names for r in self.named_by[k] if r != self.naming_ref[k]]
+        self.nameless = [n for n in self.names if self.form(n) in NAMELESS_REFS]
 
     def form(self, n: str) -> str:
         return n.rstrip("0123456789")
+
+    def fresh(self) -> dict:
+        """key objects for ONE history: every ForwardRef is a new, unevaluated object"""
+        return _Fresh(self)
+
+
+class _Fresh(dict):
+    def __init__(self, fam):
+        super().__init__()
+        self.fam = fam
+
+    def __missing__(self, n):
+        o = self.fam.obj[n]
+        self[n] = o = copy_ref(o) if self.fam.is_ref[n] else o
+        return o
 
 
 _FAM: Family | None = None
@@ -132,6 +192,7 @@ class Tables:
         self.unwrap: list[int] = []
         self.fref: list[int] = []
         self.isref: list[bool] = []
+        self.names_info: list[str] = []
         i = 0
         while i < len(self.rep):
             if i > 200:
@@ -143,6 +204,8 @@ class Tables:
         n = len(self.unwrap)
         self.unwrap = [u if u < n else k for k, u in enumerate(self.unwrap)]
         self.fref = [u if u < n else k for k, u in enumerate(self.fref)]
+        # "this reference key evaluates to that type": refs.evaluate(r) IS the key object (ctx._refers_to)
+        self.evaluates: list = [self._evaluates(o, self.label[k]) for k, o in enumerate(self.rep)]
         # == must be a congruence for the three functions: equal-but-distinct objects give the same row
         alts = []
         for i in range(NBASE):
@@ -161,11 +224,40 @@ class Tables:
             if row != (self.unwrap[k], self.fref[k], self.isref[k]):
                 self.problems.append(f"unwrap/forwardref/isinstance do not respect == on {o!r}: {row} vs "
                                      f"{(self.unwrap[k], self.fref[k], self.isref[k])}")
+        # ... and for evaluation: an equal reference object (fresh, or already evaluated once) names the same key
+        for n in fam.names:
+            if fam.is_ref[n]:
+                k = self.ids[fam.obj[n]]
+                o = copy_ref(fam.obj[n])
+                for again in (False, True):
+                    self.alt_checked += 1
+                    if self._evaluates(o, n, fresh=False) != self.evaluates[k]:
+                        self.problems.append(f"refs.evaluate does not respect == on {n} (second evaluation: {again})")
 
     def _add(self, o, label):
         self.ids[o] = len(self.rep)
         self.rep.append(o)
         self.label.append(label)
+
+    def _evaluates(self, o, label, fresh=True):
+        """id of the key object the reference evaluates to, else None"""
+        from typelib.py import refs
+        if not isinstance(o, refs.ForwardRef):
+            return None
+        try:
+            val = refs.evaluate(copy_ref(o) if fresh else o)
+        except Exception as e:
+            self.names_info.append(f"{label}: {type(e).__name__}")
+            return None
+        for k, rep in enumerate(self.rep):
+            if val is rep:
+                return k
+        try:
+            if val in self.ids:
+                self.names_info.append(f"{label}: evaluates to an object equal but not identical to key {self.ids[val]}")
+        except TypeError:
+            pass
+        return None
 
     def _row(self, o, label, add):
         from typelib.py import inspection, refs
@@ -202,14 +294,26 @@ class Tables:
                if not fam.is_ref[n] and fam.form(n) != "SA"]
         names += ("\n(* by construction of the family: (wrapper of a plain class at any nesting depth, that class) *)\n"
                   "Definition catalogue : list (nat * nat) :=\n  " + coq_list(cat, "(nat * nat)") + ".")
+        named = [str(self.id_of_name[n]) for n in fam.names if fam.naming_ref[n] is not None]
+        foreign = [f"({self.id_of_name[r]}, {self.id_of_name[k]})" for r, k in fam.foreign]
+        nameless = [str(self.id_of_name[n]) for n in fam.nameless]
+        names += ("\n(* by construction: the named keys (classes, NewTypes, aliases) *)\n"
+                  "Definition named_keys : list nat :=\n  " + coq_list(named, "nat") + ".\n"
+                  "(* by construction: (reference that is not forwardref(key) -- written in an importing module, or "
+                  "under another name -- , the key it names) *)\n"
+                  "Definition foreign_refs : list (nat * nat) :=\n  " + coq_list(foreign, "(nat * nat)") + ".\n"
+                  "(* by construction: references that cannot be evaluated *)\n"
+                  "Definition nameless_refs : list nat :=\n  " + coq_list(nameless, "nat") + ".")
         labels = "\n".join(f"   {i}: {l}" for i, l in enumerate(self.label)).replace("(*", "( *").replace("*)", "* )")
         return ("(* generated on this run from the imported typelib: key ids = Python ==/hash classes;\n"
-                "   t_unwrap = inspection.unwrap, t_fref = refs.forwardref, t_isref = isinstance(_, refs.ForwardRef)\n"
+                "   t_unwrap = inspection.unwrap, t_fref = refs.forwardref, t_isref = isinstance(_, refs.ForwardRef),\n"
+                "   t_names = the key that refs.evaluate(_) IS (None: raises / no key of the family / not a reference)\n"
                 + labels + " *)\n"
                 "From Coq Require Import List. Import ListNotations.\nRequire Import TL.Model.CtxEq.\n"
-                "Definition live : tabs := {|\n  t_unwrap := %s;\n  t_fref := %s;\n  t_isref := %s |}.\n%s\n" % (
+                "Definition live : tabs := {|\n  t_unwrap := %s;\n  t_fref := %s;\n  t_isref := %s;\n  t_names := %s |}.\n%s\n" % (
                     coq_list([str(x) for x in self.unwrap], "nat"), coq_list([str(x) for x in self.fref], "nat"),
-                    coq_list([coq_bool(x) for x in self.isref], "bool"), names))
+                    coq_list([coq_bool(x) for x in self.isref], "bool"),
+                    coq_list(["None" if x is None else f"Some {x}" for x in self.evaluates], "(option nat)"), names))
 
 
 _TAB: Tables | None = None
@@ -240,10 +344,18 @@ def prove(run: lib.Run):
             nr = fam.naming_ref[n]
             if nr is not None and tab.fref[k] != tab.id_of_name[nr]:
                 diff.append(f"forwardref({n}) = {tab.label[tab.fref[k]]}, statement: {nr}")
+        else:
+            want = [k for k in fam.names if n in fam.named_by[k]]
+            got = tab.evaluates[k]
+            if (tab.id_of_name[want[0]] if want else None) != got:
+                diff.append(f"evaluate({n}) is {tab.label[got] if got is not None else 'nothing of the family'}, "
+                            f"statement: {want[0] if want else 'names nothing'}")
     if diff:
-        run.notes.append("live unwrap/forwardref differ from the statement's reading on: " + "; ".join(diff[:6]))
+        run.notes.append("live unwrap/forwardref/evaluate differ from the statement's reading on: " + "; ".join(diff[:6]))
     run.extra_cov["key_tables"] = {"keys": len(tab.rep), "family": len(fam.names), "labels": tab.label,
                                    "unwrap": tab.unwrap, "fref": tab.fref, "isref": tab.isref,
+                                   "evaluates_to": tab.evaluates, "evaluate_info": tab.names_info[:40],
+                                   "foreign_refs": len(fam.foreign), "nameless_refs": len(fam.nameless),
                                    "equal_object_rows_checked": tab.alt_checked, "differs_from_statement": diff}
     ok = run.compile_dyn("GenCtxTables.v", text=tab.coq())
     if ok:
@@ -262,9 +374,10 @@ def prove(run: lib.Run):
     run.assumptions += [
         "C16: Python dict semantics (==/hash lookup, insertion keeps the first equal key) is the association list of "
         "Model/Ctx.v; keys are the ==/hash classes computed by the harness with a plain dict",
-        "C16: inspection.unwrap / refs.forwardref / isinstance(_, ForwardRef) enter as tables read from the import on "
-        "this run (closed family); the theorem itself holds for every family satisfying key_laws",
-        "C16: model fuel 64 stands for the interpreter's recursion limit; under key_laws 2 frames suffice",
+        "C16: inspection.unwrap / refs.forwardref / isinstance(_, ForwardRef) / refs.evaluate(_) is key enter as tables "
+        "read from the import on this run (closed family); the theorem itself holds for every family satisfying key_laws",
+        "C16: iterating a dict visits the keys in insertion order (the association list of Model/Ctx.v in list order)",
+        "C16: model fuel 64 stands for the interpreter's recursion limit; under key_laws 1 frame suffices",
     ]
 
 
@@ -273,8 +386,8 @@ def prove(run: lib.Run):
 # ----------------------------------------------------------------------------------
 # op = ["set", key, value] | ["item", key] | ["get", key, default] | ["get0", key] | ["in", key]
 
-def impl_do(c, fam: Family, o):
-    k = fam.obj[o[1]]
+def impl_do(c, objs, o):
+    k = objs[o[1]]
     try:
         if o[0] == "set":
             c[k] = o[2]
@@ -310,29 +423,34 @@ ABNORMAL_LIMIT = 300     # such observations are slow (1000 frames each) and all
 def impl_run(fam: Family, ops):
     from typelib import ctx
     c = ctx.TypeContext()
-    out = [impl_do(c, fam, o) for o in ops]
+    objs = fam.fresh()       # new, unevaluated ForwardRef objects for every history
+    out = [impl_do(c, objs, o) for o in ops]
     ABNORMAL["n"] += sum(1 for g in out if g[0] in ("recursion", "other"))
     return out
 
 
 class RefCtx:
     """The statement of C16 as a program: a write-once dict; a lookup finds, in this order, the value stored
-    under the key itself, under its unwrapped form, under the forward reference naming it.  A ForwardRef key
-    has neither.  Lookups do not change anything."""
+    under the key itself, under its unwrapped form, under a forward reference naming it -- the one written in
+    the defining module (what refs.forwardref builds) if stored, otherwise the naming reference inserted FIRST,
+    whatever module it was written in.  A ForwardRef key has no fallback.  A reference that cannot be evaluated
+    names nothing.  Lookups do not change anything."""
 
-    def __init__(self, fam: Family, d=None):
+    def __init__(self, fam: Family, d=None, order=()):
         self.fam = fam
         self.d = dict(d or {})          # key object -> value  (Python ==/hash, as the property says "dict")
+        self.order = list(order)        # names of the inserted keys, in insertion order
 
     def insert(self, n, v):
         k = self.fam.obj[n]
         assert k not in self.d, "write-once"
-        r = RefCtx(self.fam, self.d)
+        r = RefCtx(self.fam, self.d, self.order)
         r.d[k] = v
+        r.order.append(n)
         return r
 
     def route(self, n):
-        """(value, 'direct'|'unwrap'|'ref') or (None, 'miss')"""
+        """(value, 'direct'|'unwrap'|'ref'|'foreign') or (None, 'miss')"""
         fam = self.fam
         if fam.obj[n] in self.d:
             return self.d[fam.obj[n]], "direct"
@@ -340,6 +458,9 @@ class RefCtx:
             for alt, how in ((fam.unwrapped[n], "unwrap"), (fam.naming_ref[n], "ref")):
                 if alt is not None and fam.obj[alt] in self.d:
                     return self.d[fam.obj[alt]], how
+            for stored in self.order:
+                if stored in fam.named_by[n]:
+                    return self.d[fam.obj[stored]], "foreign"
         return None, "miss"
 
     def stored(self, n):
@@ -441,6 +562,13 @@ def scenarios(tier: str):
             ("two-level-alias", ["B0", "TAN0", "NTAN0", "FRTAN0"], ["set", "item"], 6),
             ("two-level-all", ["B0", "NT0", "TA0", "FIN0", "CVN0", "FIT0", "TAN0", "NTA0", "NTAN0", "FRTAN0",
                                "FRNTA0", "FRNTAN0"], ["set", "item"], 4),
+            ("foreign-two-refs", ["B0", "XR0", "YR0"], ["set", "item", "get"], 6),
+            ("foreign+canonical", ["B0", "FR0", "XR0", "ZR0"], ["set", "item"], 6),
+            ("foreign-wrappers", ["B0", "NT0", "XR0", "XRNT0"], ["set", "item"], 6),
+            ("foreign-nameless", ["B0", "UR0", "XR0", "UA0", "YR0"], ["set", "item"], 5),
+            ("foreign-stralias", ["SA0", "FR0", "XR0", "XRSA0", "FI0", "FRFI0"], ["set", "item"], 5),
+            ("foreign-all", ["B0", "NT0", "SA0", "FI0", "FR0", "XR0", "YR0", "ZR0", "XRNT0", "XRSA0", "FRFI0",
+                             "UR0", "UM0", "UA0"], ["set", "item"], 4),
         ]
     return [
         ("newtype+refs", ["B0", "NT0", "FR0", "FRNT0"], ["set", "item", "get"], 4),
@@ -453,6 +581,13 @@ def scenarios(tier: str):
         ("two-level", ["B0", "NT0", "FIN0", "TAN0"], ["set", "item", "get"], 4),
         ("two-level-all", ["B0", "NT0", "TA0", "FIN0", "CVN0", "FIT0", "TAN0", "NTA0", "NTAN0", "FRTAN0", "FRNTAN0"],
          ["set", "item"], 3),
+        # references through a non-defining module: both insertion orders of two naming references, the canonical
+        # reference against an earlier foreign one, wrappers, references that cannot be evaluated
+        ("foreign-two-refs", ["B0", "XR0", "YR0", "FR0"], ["set", "item", "get"], 4),
+        ("foreign-wrappers", ["B0", "NT0", "XR0", "XRNT0", "ZR0"], ["set", "item"], 4),
+        ("foreign-nameless", ["B0", "UR0", "XR0", "UA0", "UM0"], ["set", "item", "in"], 4),
+        ("foreign-all", ["B0", "NT0", "SA0", "FI0", "FR0", "XR0", "YR0", "ZR0", "XRNT0", "XRSA0", "FRFI0",
+                         "UR0", "UM0", "UA0"], ["set", "item"], 3),
     ]
 
 
@@ -497,14 +632,25 @@ def random_seq(fam: Family, rng: random.Random, maxlen: int, pool=None):
         nb = rng.choice([1, 1, 2, 3])
         bases = rng.sample(range(NBASE), nb)
         pool = [k for k in fam.names if int(k[-1]) in bases]
-        if rng.random() < 0.5:
-            pool = rng.sample(pool, rng.randint(2, len(pool)))
+        u = rng.random()
+        if u < 0.3:      # focus: the types and every reference naming them (any module), unevaluable ones between
+            keep = ["B", "NT", "SA", "FI", "FR", "FRNT", "FRSA"] + FOREIGN_REFS + NAMELESS_REFS
+            pool = [k for k in pool if fam.form(k) in keep]
+            pool = rng.sample(pool, rng.randint(3, len(pool)))
+        elif u < 0.65:
+            pool = rng.sample(pool, rng.randint(2, min(len(pool), 14)))
     ref = RefCtx(fam)
     ops = []
     for i in range(n):
         for _ in range(20):
             kind = rng.choices(["set", "item", "get", "get0", "in"], [30, 35, 15, 5, 15])[0]
-            o = mk_op(kind, rng.choice(pool), i)
+            key = rng.choice(pool)
+            if kind in ("item", "get", "get0") and rng.random() < 0.4:
+                # half of the lookups: a key that some fallback route reaches (aliases and references meet)
+                reach = [k for k in pool if ref.route(k)[1] not in ("miss", "direct")]
+                if reach:
+                    key = rng.choice(reach)
+            o = mk_op(kind, key, i)
             if ref.allowed(o):
                 break
         else:
@@ -867,7 +1013,8 @@ def search(run: lib.Run, broken):
     run.search_stats["oracle"] = {
         "evaluations": nev, "distinct_nontrivial": nontriv, "failures": len(fails), "routes": routes,
         "purity_histories": npure, "corpus": len(corpus_cases()),
-        "rule": "reference dict (statement; unwrapped form / naming reference by construction of the family) against "
+        "rule": "reference dict (statement; unwrapped form / naming references -- defining module first, then "
+                "insertion order -- by construction of the family) against "
                 "TypeContext on every tree node and random history of the correspondence, the corpus, and the "
                 "purity check (last operation unchanged when all earlier lookups are removed); `in` is judged "
                 "for stored keys only",
